@@ -31,6 +31,7 @@ from ..engine import (
     calls_in,
     dict_items_built,
     dotted_name,
+    enclosing_function,
     kwarg,
     norm,
     parent,
@@ -621,10 +622,54 @@ def _node_lists(cps: ast.AST, spec_param: str) -> List[Tuple[bool, ast.AST, Opti
     return out
 
 
+def canonical_node_builder(repo: Repo) -> Tuple[str, ast.AST, Dict[str, List[ast.AST]], Optional[str]]:
+    """(qualname, normal form, {key: values} of the mapping, name of the node configuration there) of the function
+    that writes the canonical node - the mapping with the processor reference that is serialised into the name of
+    uuid5 -, found by role through the call graph from the public entry point `build_canonical_spec`: the
+    innermost function of the module that returns a mapping with 'processor_ref', whatever it is called; when no
+    function returns it (the record is written where it is hashed), the hashing function itself."""
+    cached = repo.__dict__.get("_c05_canon_builder")
+    if cached is not None:
+        return cached
+    mod = repo.module(GRAPH)
+    root = repo.func(GRAPH, "build_canonical_spec")
+    hits: List[Tuple[int, str, ast.AST, Dict[str, List[ast.AST]]]] = []
+    for m, n, path in repo.call_graph_closure([(mod, root)]).values():
+        if m.rel != GRAPH or not isinstance(n, FuncNode) or n is root:
+            continue
+        qn = qualname_of(n)
+        nf = NF(repo, GRAPH, qn)
+        km = returned_mapping(repo, GRAPH, nf)
+        if "processor_ref" in km:
+            hits.append((len(path), qn, nf, km))
+    if hits:
+        deepest = max(h[0] for h in hits)
+        best = [h for h in hits if h[0] == deepest]
+        if len(best) != 1:
+            raise AnalysisError(f"canonical node: {len(best)} functions return a mapping with 'processor_ref' ({', '.join(h[1] for h in best)})")
+        _d, qn, nf, km = best[0]
+        res = (qn, nf, km, (_params_of(nf) or [None])[0])
+    else:
+        bcs = NF(repo, GRAPH, "build_canonical_spec")
+        _uu, objs = _hashed_node_objects(bcs)
+        km = {}
+        for o in objs:
+            for k, vs in mapping_items(repo, GRAPH, bcs, o).items():
+                km.setdefault(k, []).extend(vs)
+        if "processor_ref" not in km:
+            raise AnalysisError("canonical node: no mapping with 'processor_ref' is hashed into the node uuid or returned on the way there")
+        # the node configuration: the mapping whose 'parameters' are resolved into the hashed parameter map
+        cfgs = {dotted_name(x.func.value) if isinstance(x, ast.Call) else dotted_name(x.value) for c in calls_to(_fn_stmts(bcs), "resolve_parameters") for a in c.args[:1] for x in ast.walk(a) if (isinstance(x, ast.Call) and call_attr(x) == "get" and isinstance(x.func, ast.Attribute) and x.args and isinstance(x.args[0], ast.Constant) and x.args[0].value == "parameters") or (isinstance(x, ast.Subscript) and isinstance(x.slice, ast.Constant) and x.slice.value == "parameters")}
+        cfgs.discard(None)
+        res = ("build_canonical_spec", bcs, km, cfgs.pop() if len(cfgs) == 1 else None)
+    repo.__dict__["_c05_canon_builder"] = res
+    return res
+
+
 def field_coverage(repo: Repo, R: Report) -> None:
     r = R.rule("C05-D1-field-coverage", "every identity-bearing field reaches the bytes that are hashed: node uuid <- whole canonical node (role, processor_ref, full-depth params, ports, declaration index); node semantic id <- whole sweep metadata minus exactly the UI-only keys; pipeline semantic id <- node uuid and node semantic id of every node in order; config id <- every (uuid, semantic id) pair; pipeline id <- whole canonical graph", 16)
     # --- node uuid: the mapping serialised into the name of uuid5 is the complete canonical node
-    repo.func(GRAPH, "_canonical_node")  # anchor
+    cn_q = canonical_node_builder(repo)[0]  # anchor, by role
     bcs = NF(repo, GRAPH, "build_canonical_spec")
     uu, objs = _hashed_node_objects(bcs)
     keys: Dict[str, List[ast.AST]] = {}
@@ -632,7 +677,7 @@ def field_coverage(repo: Repo, R: Report) -> None:
         ki = mapping_items(repo, GRAPH, bcs, o)
         keys = ki if i == 0 else {k: v for k, v in keys.items() if k in ki}
     for k in sorted(CANON_KEYS):
-        R.check(k in keys, r, GRAPH, "_canonical_node", f"canonical node carries {k!r}", f"field {k!r} no longer enters the canonical node: two configurations differing only there get the same node uuid", bcs.lineno)
+        R.check(k in keys, r, GRAPH, cn_q, f"canonical node carries {k!r}", f"field {k!r} no longer enters the canonical node: two configurations differing only there get the same node uuid", bcs.lineno)
     ok = bool(uu) and bool(objs) and CANON_KEYS <= set(keys)
     R.check(ok, r, GRAPH, "build_canonical_spec", "node_uuid = uuid5(ns, json.dumps(<whole canonical node>))", "the node uuid is not derived from the complete canonical node", bcs.lineno)
     g = CFG(bcs, may_raise=lambda p: set())
@@ -1061,23 +1106,35 @@ def _processor_ref_rewrites(cn: ast.AST, e: ast.AST, cfg_param: str, guarded: bo
 def sweep_metadata(repo: Repo, R: Report) -> None:
     r = R.rule("C05-D2-sweep-definition-in-metadata", "generated sweep classes carry no identity in processor_ref; the whole sweep definition (wrapped processor, expression signatures, variable domains, mode, broadcast, collection, dependencies) is in the preprocessor metadata, and the same metadata object enriches the canonical nodes on the inspection and the run-time path; a string processor reference is hashed as written", 12)
     create = repo.func(SWEEP, "ParametricSweepFactory.create")
+    smod = repo.module(SWEEP)
+    # the functions of the factory module that the public entry point runs (itself, helpers it was split into)
+    makers = [n for m, n, _p in repo.call_graph_closure([(smod, create)]).values() if m.rel == SWEEP and isinstance(n, FuncNode)]
+    makers = [n for n in makers if not any(n is not o and any(x is n for x in ast.walk(o)) for o in makers)]  # outermost only
     # the function that builds the published sweep definition, by role: what the generated classes store under 'preprocessor'
-    hook_vals = [v for v in _values_under_key(create, "preprocessor") if isinstance(v, ast.Call)]
+    hook_vals = [v for mk in makers for v in _values_under_key(mk, "preprocessor") if isinstance(v, ast.Call)]
     builders = {call_attr(v) for v in hook_vals}
     if len(builders) != 1:
         raise AnalysisError("_preprocessor_metadata not found")
     bname = builders.pop()
-    pm0 = next((n for n in ast.walk(create) if isinstance(n, FuncNode) and n.name == bname), None) or repo.module(SWEEP).defs.get(bname)
+    # ... a def nested in a maker, a module-level function, or a method of a class of the module (called through the class / cls)
+    pm0 = next((n for mk in makers for n in ast.walk(mk) if isinstance(n, FuncNode) and n.name == bname), None) or smod.defs.get(bname)
+    if not isinstance(pm0, FuncNode):
+        owners = {dotted_name(v.func.value) for v in hook_vals if isinstance(v.func, ast.Attribute)}
+        cands = [n for qn, n in smod.defs.items() if isinstance(n, FuncNode) and n.name == bname and "." in qn and (qn.rpartition(".")[0] in owners or owners <= {"cls", "self"})]
+        pm0 = cands[0] if len(cands) == 1 else None
     if not isinstance(pm0, FuncNode):
         raise AnalysisError("_preprocessor_metadata not found")
     pm_q = qualname_of(pm0)
     pm = NF(repo, SWEEP, pm_q)
-    cls_p = _params_of(pm)[0] if _params_of(pm) else None
+    pm_ps = _params_of(pm)
+    if isinstance(parent(pm0), ast.ClassDef) and not any(dotted_name(d) == "staticmethod" for d in pm0.decorator_list):
+        pm_ps = pm_ps[1:]  # the receiver is not the described class
+    cls_p = pm_ps[0] if pm_ps else None
     keys = first_items(returned_mapping(repo, SWEEP, pm))
     sources = {
         "element_ref": "_element", "param_expressions": "_expr_src", "variables": "_vars", "mode": "_mode", "broadcast": "_broadcast", "collection": "_collection_output", "dependencies": "_required_external",
     }
-    where = "ParametricSweepFactory.create._preprocessor_metadata"
+    where = pm_q
     for k in sorted(SWEEP_META_KEYS):
         v = keys.get(k)
         R.check(v is not None and reads_attr(flow(pm, v), sources[k], cls_p), r, SWEEP, where, f"metadata[{k!r}] <- cls.{sources[k]}", f"the sweep's {k} does not reach the metadata that is hashed: changing it changes no id", pm.lineno)
@@ -1093,22 +1150,22 @@ def sweep_metadata(repo: Repo, R: Report) -> None:
         whole = v is not None and derives_whole(repo, SWEEP, pm, v, set(), None, is_root, False)
         R.check(whole, r, SWEEP, where, f"metadata[{k!r}] has one entry for every item of cls.{attr}", f"metadata[{k!r}] is built from a part of cls.{attr} only (filtered / sliced / not every item used): a sweep that differs in one of the left-out entries - e.g. the domain of a variable no expression reads, which still multiplies the produced items - keeps all its ids", getattr(v, "lineno", pm.lineno))
     # every generated class publishes its definition (own hook or inherited from another generated class)
-    gen = [c for c in ast.walk(create) if isinstance(c, ast.ClassDef)]
+    gen = [c for mk in makers for c in ast.walk(mk) if isinstance(c, ast.ClassDef)]
     publishing = {c.name for c in gen if any(isinstance(v, ast.Call) and call_attr(v) == bname for v in _values_under_key(c, "preprocessor"))}
     n_hooks = sum(1 for c in gen if c.name in publishing or any(dotted_name(b) in publishing for b in c.bases))
     R.check(bool(gen) and n_hooks == len(gen), r, SWEEP, "ParametricSweepFactory.create", "meta['preprocessor'] = _preprocessor_metadata(cls) in all three variants", f"only {n_hooks} of the {len(gen)} generated sweep variants publish their definition", create.lineno)
     # string processor refs are hashed as written
-    cn = NF(repo, GRAPH, "_canonical_node")
-    keys_cn = returned_mapping(repo, GRAPH, cn)
+    cn_q, cn, keys_cn, cfg_p = canonical_node_builder(repo)
     pvs = keys_cn.get("processor_ref") or []
-    cfg_p = _params_of(cn)[0]
+    if cfg_p is None:
+        raise AnalysisError(f"{cn_q}: the node configuration the processor reference is read from could not be told")
     bad: List[ast.AST] = []
     for pv in pvs:
         bad.extend(_processor_ref_rewrites(cn, pv, cfg_p, False, set()))
     for b in bad:
-        R.violation(r, GRAPH, "_canonical_node", "processor_ref rewritten before hashing", "a string processor reference is rewritten before hashing (e.g. resolved to a generated class whose name drops parts of the shorthand): `template:` / `rename:` / `delete:` nodes that differ in meaning get the same node uuid", getattr(b, "lineno", cn.lineno))
+        R.violation(r, GRAPH, cn_q, "processor_ref rewritten before hashing", "a string processor reference is rewritten before hashing (e.g. resolved to a generated class whose name drops parts of the shorthand): `template:` / `rename:` / `delete:` nodes that differ in meaning get the same node uuid", getattr(b, "lineno", cn.lineno))
     if pvs and not bad:
-        R.ok(r, GRAPH, "_canonical_node", "processor_ref: string kept as written, class -> module.qualname", "", cn.lineno)
+        R.ok(r, GRAPH, cn_q, "processor_ref: string kept as written, class -> module.qualname", "", cn.lineno)
     # same metadata object on both paths
     bip = nfunc(repo, BUILDER, "build_inspection_payload", keep=("_build_sweep_payload",))
     insp_p = next((a.arg for a in bip.args.kwonlyargs + bip.args.args if a.arg == "inspection"), "inspection")
@@ -1147,20 +1204,56 @@ def sweep_metadata(repo: Repo, R: Report) -> None:
 # D3
 # ---------------------------------------------------------------------------------------------------------
 
-def _enumerate_index(fn: ast.AST, name: str) -> Optional[ast.Call]:
-    """The `enumerate(..)` call whose running index the local *name* is (its only binding), else None."""
+def _position_index(fn: ast.AST, name: str) -> Optional[Tuple[ast.AST, ast.AST]]:
+    """(loop / comprehension clause, its iterable) when the local *name* is bound only as the running position of
+    that traversal, so that it takes pairwise distinct values: the index of `enumerate(xs[, <int>])`, the variable of a
+    `range(..)` loop, the first component of `zip(range(..) | count(..), xs, ..)`."""
     binders = []
     for n in ast.walk(fn):
         if isinstance(n, (ast.For, ast.comprehension)):
             if any(isinstance(x, ast.Name) and x.id == name for x in ast.walk(n.target)):
                 binders.append(n)
-    others = [v for v in name_values(fn, name)]
-    if len(binders) != 1 or len(others) != 1:
+    if not binders:
+        # a counter kept by hand: set to a constant before the loop, stepped by a non-zero constant exactly once in every
+        # iteration (a top-level statement of the loop body, no `continue` that could skip it)
+        inits = [n for n in _fn_stmts(fn) if isinstance(n, (ast.Assign, ast.AnnAssign)) and n.value is not None and any(isinstance(t, ast.Name) and t.id == name for t in (n.targets if isinstance(n, ast.Assign) else [n.target]))]
+        steps = [n for n in _fn_stmts(fn) if isinstance(n, ast.AugAssign) and isinstance(n.target, ast.Name) and n.target.id == name]
+        if len(inits) == 1 and len(steps) == 1 and len(name_values(fn, name)) == 2:
+            init, step = inits[0], steps[0]
+            loop = parent(step)
+            if isinstance(loop, ast.For) and any(step is x for x in loop.body) and not loop.orelse and not any(isinstance(x, ast.Continue) for x in ast.walk(loop)) \
+                    and not any(init is x for x in ast.walk(loop)) and isinstance(init.value, ast.Constant) and isinstance(init.value.value, int) \
+                    and isinstance(step.op, (ast.Add, ast.Sub)) and isinstance(step.value, ast.Constant) and isinstance(step.value.value, int) and step.value.value != 0 \
+                    and not any(isinstance(a, (ast.For, ast.While)) for a in ancestors(loop)):
+                return loop, loop.iter
+        return None
+    if len(binders) != 1 or len(name_values(fn, name)) != 1:
         return None
     b = binders[0]
     it = b.iter
-    if isinstance(it, ast.Call) and call_attr(it) == "enumerate" and isinstance(b.target, ast.Tuple) and b.target.elts and isinstance(b.target.elts[0], ast.Name) and b.target.elts[0].id == name:
-        return it
+
+    def counting(c: ast.AST) -> bool:
+        if not isinstance(c, ast.Call) or c.keywords and call_attr(c) != "count":
+            return False
+        if call_attr(c) == "range":
+            step = c.args[2] if len(c.args) == 3 else None
+            return 1 <= len(c.args) <= 3 and (step is None or (isinstance(step, ast.Constant) and isinstance(step.value, int) and step.value != 0) or (isinstance(step, ast.UnaryOp) and isinstance(step.op, ast.USub) and isinstance(step.operand, ast.Constant) and step.operand.value))
+        if call_attr(c) == "count":
+            step = c.args[1] if len(c.args) == 2 else kwarg(c, "step")
+            return step is None or (isinstance(step, ast.Constant) and isinstance(step.value, int) and step.value != 0)
+        return False
+
+    first_of_pair = isinstance(b.target, ast.Tuple) and bool(b.target.elts) and isinstance(b.target.elts[0], ast.Name) and b.target.elts[0].id == name
+    if isinstance(it, ast.Call) and call_attr(it) == "enumerate" and first_of_pair and len(it.args) >= 1:
+        start = it.args[1] if len(it.args) > 1 else kwarg(it, "start")
+        # any constant start keeps the indices pairwise distinct
+        if start is None or (isinstance(start, ast.Constant) and isinstance(start.value, int)):
+            return b, it
+        return None
+    if isinstance(b.target, ast.Name) and counting(it):
+        return b, it
+    if isinstance(it, ast.Call) and call_attr(it) == "zip" and first_of_pair and it.args and counting(it.args[0]) and not any(isinstance(a, ast.Starred) for a in it.args):
+        return b, it
     return None
 
 
@@ -1192,6 +1285,310 @@ def _sig_alternatives(fn: ast.AST, g: CFG, e: ast.AST, _seen: Optional[Set[str]]
     return [(e, {})]
 
 
+# ---------------------------------------------------------------------------------------------------------
+# value flow across scopes: closures, same-module callees, dispatch tables
+# ---------------------------------------------------------------------------------------------------------
+
+_MAPPING_CTORS = {"dict", "OrderedDict", "copy", "deepcopy", "cast"}
+
+
+class _Frame:
+    """One scope in which an expression is read: a (normalised) function, a nested def, a lambda or the module.
+    *obj*: the names that denote the analysed object here; *bind*: parameter -> (caller frame, argument);
+    *outer*: the lexically enclosing frame; *caller*: the frame of the call that entered this one."""
+
+    def __init__(self, repo: Repo, rel: str, fn: ast.AST, obj: Iterable[str] = (), bind: Optional[Dict[str, Tuple["_Frame", ast.AST]]] = None, outer: Optional["_Frame"] = None, caller: Optional["_Frame"] = None) -> None:
+        self.repo, self.rel, self.fn = repo, rel, fn
+        self.obj = set(obj)
+        self.bind = bind or {}
+        self.outer = outer
+        self.caller = caller
+        self.depth = (caller.depth + 1) if caller is not None else 0
+        self._g: Optional[CFG] = None
+        a = getattr(fn, "args", None)
+        self.params: List[str] = [x.arg for x in a.posonlyargs + a.args + a.kwonlyargs] + [x.arg for x in (a.vararg, a.kwarg) if x is not None] if isinstance(a, ast.arguments) else []
+
+    @property
+    def g(self) -> Optional[CFG]:
+        if self._g is None and isinstance(self.fn, FuncNode):
+            self._g = CFG(self.fn, may_raise=lambda p: set())
+        return self._g
+
+    def module_frame(self) -> "_Frame":
+        f = self
+        while f.outer is not None:
+            f = f.outer
+        return f
+
+    def binds(self, name: str) -> bool:
+        return name in self.params or bool(name_values(self.fn, name))
+
+    def home(self, name: str) -> Optional["_Frame"]:
+        """The frame (this one or a lexically enclosing one) whose scope binds the local *name*."""
+        f: Optional[_Frame] = self
+        while f is not None:
+            if f.binds(name):
+                return f
+            f = f.outer
+        return None
+
+    def is_obj(self, name: str) -> bool:
+        h = self.home(name)
+        return h is not None and name in h.obj
+
+    def returns(self) -> List[ast.AST]:
+        if isinstance(self.fn, ast.Lambda):
+            return [self.fn.body]
+        return [x.value for x in walk_no_nested(self.fn) if isinstance(x, ast.Return) and x.value is not None]
+
+    def on_stack(self, fn: ast.AST) -> bool:
+        f: Optional[_Frame] = self
+        while f is not None:
+            if f.fn is fn or getattr(f.fn, "_normal_of", None) is getattr(fn, "_normal_of", fn):
+                return True
+            f = f.caller
+        return False
+
+
+def _root_frame(repo: Repo, rel: str, fn: ast.AST, obj: Iterable[str]) -> _Frame:
+    return _Frame(repo, rel, fn, obj, outer=_Frame(repo, rel, repo.module(rel).tree))
+
+
+def _defined_in(fr: _Frame, name: str) -> Optional[Tuple[ast.AST, _Frame]]:
+    """The def called *name* written directly in the scope of *fr* or of a lexically enclosing frame (module last)."""
+    f: Optional[_Frame] = fr
+    while f is not None:
+        if isinstance(f.fn, ast.Module):
+            d = f.repo.module(f.rel).defs.get(name)
+            if isinstance(d, FuncNode):
+                return NF(f.repo, f.rel, name), f
+            return None
+        for n in ast.walk(f.fn):
+            if isinstance(n, FuncNode) and n is not f.fn and n.name == name and enclosing_function(n) is f.fn:
+                return n, f
+        f = f.outer
+    return None
+
+
+def _table_entries(fr: _Frame, e: ast.AST, _seen: Set[Tuple[int, str]]) -> Optional[List[Tuple[_Frame, ast.AST]]]:
+    """The values a dispatch table (mapping / sequence literal, `dict(k=v)`, a local or module constant holding one,
+    with its `t[k] = v` stores) can hand out; None when the table cannot be told."""
+    if isinstance(e, ast.Dict):
+        out: List[Tuple[_Frame, ast.AST]] = []
+        for k, v in zip(e.keys, e.values):
+            if k is None:
+                sub = _table_entries(fr, v, _seen)
+                if sub is None:
+                    return None
+                out.extend(sub)
+            else:
+                out.append((fr, v))
+        return out
+    if isinstance(e, (ast.Tuple, ast.List)) and not any(isinstance(x, ast.Starred) for x in e.elts):
+        return [(fr, x) for x in e.elts]
+    if isinstance(e, ast.Call) and call_attr(e) in ("dict", "OrderedDict", "MappingProxyType", "frozendict"):
+        out = [(fr, k.value) for k in e.keywords if k.arg is not None]
+        for a in list(e.args) + [k.value for k in e.keywords if k.arg is None]:
+            sub = _table_entries(fr, a, _seen)
+            if sub is None:
+                return None
+            out.extend(sub)
+        return out
+    if isinstance(e, ast.Name):
+        h = fr.home(e.id)
+        if h is None or (id(h), e.id) in _seen:
+            return None
+        _seen.add((id(h), e.id))
+        vals = assigned_value(h.fn, e.id)
+        if not vals or len(vals) != len(name_values(h.fn, e.id)) - len(key_stores(h.fn, e.id)):
+            return None  # also bound / grown in a way that is not understood
+        out = []
+        for v in vals:
+            sub = _table_entries(h, v, _seen)
+            if sub is None:
+                return None
+            out.extend(sub)
+        out.extend((h, v) for _st, _k, v in key_stores(h.fn, e.id))
+        return out
+    return None
+
+
+def _callables(fr: _Frame, e: Optional[ast.AST], _seen: Optional[Set[Tuple[int, str]]] = None) -> List[Optional[Tuple[ast.AST, _Frame]]]:
+    """The function definitions / lambdas the expression *e* can evaluate to, each with the frame it is written
+    in; a None element stands for a callee that cannot be told.  `None` constants (the miss of a table lookup, tested
+    before the call) are no callee."""
+    _seen = _seen if _seen is not None else set()
+    if e is None:
+        return [None]
+    if isinstance(e, ast.Lambda):
+        return [(e, fr)]
+    if isinstance(e, ast.Constant) and e.value is None:
+        return []
+    if isinstance(e, ast.IfExp):
+        return _callables(fr, e.body, _seen) + _callables(fr, e.orelse, _seen)
+    if isinstance(e, ast.BoolOp):
+        return [x for v in e.values for x in _callables(fr, v, _seen)]
+    if isinstance(e, ast.NamedExpr):
+        return _callables(fr, e.value, _seen)
+    if isinstance(e, ast.Name):
+        h = fr.home(e.id)
+        if h is not None:
+            if (id(h), e.id) in _seen:
+                return []
+            _seen.add((id(h), e.id))
+            if e.id in h.params:
+                b = h.bind.get(e.id)
+                return _callables(b[0], b[1], _seen) if b is not None and not assigned_value(h.fn, e.id) else [None]
+            vals = assigned_value(h.fn, e.id)
+            if not vals or len(vals) != len(name_values(h.fn, e.id)):
+                return [None]
+            return [x for v in vals for x in _callables(h, v, _seen)]
+        d = _defined_in(fr, e.id)
+        return [d] if d is not None else [None]
+    table: Optional[ast.AST] = None
+    extra: List[ast.AST] = []
+    if isinstance(e, ast.Call) and isinstance(e.func, ast.Attribute) and e.func.attr == "get" and 1 <= len(e.args) <= 2 and not e.keywords:
+        table, extra = e.func.value, list(e.args[1:])
+    elif isinstance(e, ast.Subscript):
+        table = e.value
+    if table is not None:
+        entries = _table_entries(fr, table, set())
+        if entries is None:
+            return [None]
+        return [x for f, v in entries for x in _callables(f, v, _seen)] + [x for v in extra for x in _callables(fr, v, _seen)]
+    if isinstance(e, ast.Attribute):
+        mod = fr.repo.module(fr.rel)
+        d = dotted_name(e) or ""
+        head, _, rest = d.partition(".")
+        cands = [qn for qn, n in mod.defs.items() if isinstance(n, FuncNode) and (qn == d or (head in ("self", "cls") and "." in qn and qn.rpartition(".")[2] == rest))]
+        if len(cands) == 1:
+            return [(NF(fr.repo, fr.rel, cands[0]), fr.module_frame())]
+    return [None]
+
+
+def _enter(fr: _Frame, call: ast.Call, target: ast.AST, lex: _Frame) -> _Frame:
+    """The frame of *target* entered through *call* read in *fr*: parameters bound to the argument expressions."""
+    a = target.args
+    pos = [x.arg for x in a.posonlyargs + a.args]
+    src = getattr(target, "_normal_of", target)
+    if isinstance(call.func, ast.Attribute) and isinstance(src, FuncNode) and isinstance(parent(src), ast.ClassDef) and not any(dotted_name(d) == "staticmethod" for d in src.decorator_list):
+        pos = pos[1:]
+    bind: Dict[str, Tuple[_Frame, ast.AST]] = {}
+    if not any(isinstance(x, ast.Starred) for x in call.args):
+        for p, v in zip(pos, call.args):
+            bind[p] = (fr, v)
+    for k in call.keywords:
+        if k.arg is not None:
+            bind[k.arg] = (fr, k.value)
+    obj = {p for p, (f, v) in bind.items() if isinstance(v, ast.Name) and f.is_obj(v.id)}
+    return _Frame(fr.repo, fr.rel, target, obj, bind, lex, fr)
+
+
+def _entered(fr: _Frame, call: ast.Call) -> Optional[List[_Frame]]:
+    """Frames of the same-module functions *call* can invoke (by name, through a local holding a function, through
+    a dispatch table); None when a callee cannot be told or lies outside the module, [] when nothing is entered."""
+    if fr.depth >= 5:
+        return None
+    f = call.func
+    if isinstance(f, ast.Name) and fr.home(f.id) is None and _defined_in(fr, f.id) is None:
+        return None  # builtin / imported
+    if isinstance(f, ast.Attribute) and not (isinstance(f.value, ast.Name) and f.value.id in ("self", "cls")) and dotted_name(f) not in fr.repo.module(fr.rel).defs:
+        return None  # a method of some value
+    tg = _callables(fr, f)
+    if not tg or any(t is None for t in tg):
+        return None
+    out: List[_Frame] = []
+    for t in tg:
+        assert t is not None
+        if fr.on_stack(t[0]):
+            continue
+        out.append(_enter(fr, call, t[0], t[1]))
+    return out
+
+
+def fflow(fr: _Frame, expr: Optional[ast.AST]) -> List[Tuple[_Frame, ast.AST]]:
+    """Backward slice of *expr* across scopes: every syntax node that can contribute to its value, with the frame
+    it is read in - locals of the scope, free variables of closures in the enclosing scope, parameters in the argument
+    of the entering call, calls of same-module functions in what they return."""
+    out: List[Tuple[_Frame, ast.AST]] = []
+    if expr is None:
+        return out
+    seen: Set[Tuple[int, str]] = set()
+    todo: List[Tuple[_Frame, ast.AST]] = [(fr, expr)]
+    while todo:
+        f, e = todo.pop()
+        for x in ast.walk(e):
+            out.append((f, x))
+            if isinstance(x, ast.Name) and isinstance(x.ctx, ast.Load):
+                h = f.home(x.id)
+                if h is None or (id(h), x.id) in seen:
+                    continue
+                seen.add((id(h), x.id))
+                todo.extend((h, v) for v in name_values(h.fn, x.id))
+                if x.id in h.bind:
+                    todo.append(h.bind[x.id])
+            elif isinstance(x, ast.Call):
+                for nf in _entered(f, x) or []:
+                    todo.extend((nf, rv) for rv in nf.returns())
+    return out
+
+
+def reads_obj_attr(pairs: Iterable[Tuple[_Frame, ast.AST]], attr: str) -> bool:
+    """`<obj>.attr` / `getattr(<obj>, 'attr', ..)` occurs in the slice, <obj> being a name of the analysed object."""
+    for f, x in pairs:
+        if isinstance(x, ast.Attribute) and x.attr == attr and isinstance(x.value, ast.Name) and f.is_obj(x.value.id):
+            return True
+        if isinstance(x, ast.Call) and call_attr(x) == "getattr" and len(x.args) >= 2 and isinstance(x.args[1], ast.Constant) and x.args[1].value == attr and isinstance(x.args[0], ast.Name) and f.is_obj(x.args[0].id):
+            return True
+    return False
+
+
+def falternatives(fr: _Frame, e: ast.AST, _seen: Optional[Set[Tuple[int, str]]] = None) -> List[Tuple[_Frame, ast.AST]]:
+    """`alternatives` across scopes."""
+    _seen = _seen if _seen is not None else set()
+    if isinstance(e, ast.IfExp):
+        return falternatives(fr, e.body, _seen) + falternatives(fr, e.orelse, _seen)
+    if isinstance(e, ast.Name):
+        h = fr.home(e.id)
+        if h is not None and (id(h), e.id) not in _seen:
+            _seen.add((id(h), e.id))
+            vals = [(h, v) for v in assigned_value(h.fn, e.id)]
+            if not vals and e.id in h.bind:
+                vals = [h.bind[e.id]]
+            if vals:
+                return [x for f, v in vals for x in falternatives(f, v, _seen)]
+    return [(fr, e)]
+
+
+FItems = Dict[str, List[Tuple[_Frame, ast.AST]]]
+
+
+def _ifexp_split(e: ast.AST) -> List[ast.AST]:
+    return _ifexp_split(e.body) + _ifexp_split(e.orelse) if isinstance(e, ast.IfExp) else [e]
+
+
+def returned_sites(fr: _Frame) -> List[Tuple[_Frame, ast.AST, FItems]]:
+    """(frame, mapping expression, {key: values stored into the mapping afterwards}) for everything *fr* can return:
+    split at conditional expressions and the assignments of a returned local; a returned call of a same-module
+    function - by name, through a local, through a dispatch table - is followed into what that function returns."""
+    out: List[Tuple[_Frame, ast.AST, FItems]] = []
+    for rv in fr.returns():
+        alts = _sig_alternatives(fr.fn, fr.g, rv) if fr.g is not None else [(a, {}) for a in _ifexp_split(rv)]
+        for alt, extra in alts:
+            fextra: FItems = {k: [(fr, v) for v in vs] for k, vs in extra.items()}
+            entered = _entered(fr, alt) if isinstance(alt, ast.Call) and call_attr(alt) not in _MAPPING_CTORS else None
+            if not entered:
+                out.append((fr, alt, fextra))
+                continue
+            for nf in entered:
+                for sf, sa, se in returned_sites(nf):
+                    merged: FItems = {k: list(v) for k, v in se.items()}
+                    for k, v in fextra.items():
+                        merged.setdefault(k, []).extend(v)
+                    out.append((sf, sa, merged))
+    return out
+
+
 def positional_and_domains(repo: Repo, R: Report) -> None:
     r = R.rule("C05-D3-position-and-domain", "declaration_index is the enumerate() index of the node in the spec; the range signature covers every RangeSpec field; the sequence signature covers count and a digest of all values", 9)
     bcs = NF(repo, GRAPH, "build_canonical_spec")
@@ -1200,79 +1597,70 @@ def positional_and_domains(repo: Repo, R: Report) -> None:
     ok = bool(objs)
     for o in objs:
         v = _effective_value(bcs, g, o, "declaration_index", _enclosing_stmt(bcs, o), 0, repo, GRAPH)
-        en = _enumerate_index(bcs, v.id) if isinstance(v, ast.Name) else None
-        # any constant start keeps the indices pairwise distinct
-        start = (en.args[1] if len(en.args) > 1 else kwarg(en, "start")) if en is not None else None
-        ok = ok and en is not None and len(en.args) >= 1 and (start is None or (isinstance(start, ast.Constant) and isinstance(start.value, int)))
-        # ... and the loop that computes the uuid is that enumeration
-        if ok:
-            loop = next((n for n in ast.walk(bcs) if isinstance(n, (ast.For, ast.comprehension)) and n.iter is en), None)
+        pos = _position_index(bcs, v.id) if isinstance(v, ast.Name) else None
+        ok = ok and pos is not None
+        # ... and the loop that computes the uuid is that traversal
+        if ok and pos is not None:
+            loop = pos[0]
             inside = isinstance(loop, ast.For) and any(x is o for x in ast.walk(loop)) or (isinstance(loop, ast.comprehension) and any(x is o for x in ast.walk(parent(loop))))
             ok = ok and bool(inside)
-    R.check(ok, r, GRAPH, "build_canonical_spec", "_canonical_node(cfg, <enumerate index>, ...)", "identical nodes at different positions can receive the same uuid", bcs.lineno)
-    cn = NF(repo, GRAPH, "_canonical_node")
-    keys_cn = returned_mapping(repo, GRAPH, cn)
+    R.check(ok, r, GRAPH, "build_canonical_spec", "canonical node['declaration_index'] = <running position of the node in the spec>", "identical nodes at different positions can receive the same uuid", bcs.lineno)
+    cn_q, cn, keys_cn, _cfg = canonical_node_builder(repo)
     dv = keys_cn.get("declaration_index") or []
-    cn_params = set(_params_of(cn))
-    ok = bool(dv) and all(isinstance(v, ast.Name) and v.id in cn_params and not assigned_value(cn, v.id) for v in dv)
-    R.check(ok, r, GRAPH, "_canonical_node", "'declaration_index': declaration_index", "the positional discriminator is not the parameter", cn.lineno)
+    if cn_q == "build_canonical_spec":
+        # the record is written where it is hashed: its 'declaration_index' is the value judged above
+        ok = ok and bool(dv)
+    else:
+        cn_params = set(_params_of(cn))
+        ok = bool(dv) and all(isinstance(v, ast.Name) and v.id in cn_params and not name_values(cn, v.id) for v in dv)
+    R.check(ok, r, GRAPH, cn_q, "'declaration_index': declaration_index", "the positional discriminator is not the parameter", cn.lineno)
     # RangeSpec fields vs signature
     rs = repo.cls(SWEEP, "RangeSpec")
     fields = [st.target.id for st in rs.body if isinstance(st, ast.AnnAssign) and isinstance(st.target, ast.Name)]
     vds = NF(repo, SEM, "variable_domain_signature")
-    sp = _params_of(vds)[0]
-    sigs: Dict[str, Dict[str, ast.AST]] = {}
-    gv = CFG(vds, may_raise=lambda p: set())
-    for ret in walk_no_nested(vds):
-        if isinstance(ret, ast.Return) and ret.value is not None:
-            for alt, extra in _sig_alternatives(vds, gv, ret.value):
-                items = mapping_items(repo, SEM, vds, alt) if not isinstance(alt, ast.Name) else {}
-                for k, v in extra.items():
-                    items.setdefault(k, []).extend(v)
-                for kv in items.get("kind", []):
-                    if isinstance(kv, ast.Constant) and isinstance(kv.value, str):
-                        sigs.setdefault(kv.value, first_items(items))
-    range_ret, seq_ret, fc_ret = sigs.get("range"), sigs.get("sequence"), sigs.get("from_context")
-    if range_ret is None or seq_ret is None:
+    root = _root_frame(repo, SEM, vds, _params_of(vds)[:1])
+    # every mapping the function can return, in the scope where it is written (its own body, a closure or a
+    # same-module function it hands the spec to - called by name or picked from a dispatch table), by its constant 'kind'
+    sigs: Dict[str, List[Dict[str, Tuple[_Frame, ast.AST]]]] = {}
+    for sf, alt, extra in returned_sites(root):
+        items: FItems = {k: [(sf, v) for v in vs] for k, vs in mapping_items(repo, SEM, sf.fn, alt).items()} if not isinstance(alt, ast.Name) else {}
+        for k, v in extra.items():
+            items.setdefault(k, []).extend(v)
+        for _kf, kv in items.get("kind", []):
+            if isinstance(kv, ast.Constant) and isinstance(kv.value, str):
+                sigs.setdefault(kv.value, []).append({k: vs[0] for k, vs in items.items() if vs})
+    range_sigs, seq_sigs, fc_sigs = sigs.get("range"), sigs.get("sequence"), sigs.get("from_context")
+    if not range_sigs or not seq_sigs:
         raise AnalysisError("variable_domain_signature: range / sequence signatures not found")
     for f in fields:
-        v = range_ret.get(f)
-        R.check(v is not None and reads_attr(flow(vds, v), f, sp), r, SEM, "variable_domain_signature", f"range signature covers RangeSpec.{f}", f"RangeSpec.{f} is not part of the domain signature: changing it changes no id", vds.lineno)
+        ok = all(sig.get(f) is not None and reads_obj_attr(fflow(*sig[f]), f) for sig in range_sigs)
+        R.check(ok, r, SEM, "variable_domain_signature", f"range signature covers RangeSpec.{f}", f"RangeSpec.{f} is not part of the domain signature: changing it changes no id", vds.lineno)
 
-    def all_values(e: Optional[ast.AST]) -> bool:
+    def all_values(fr: _Frame, e: Optional[ast.AST]) -> bool:
         """*e* is computed from the complete `spec.values` (no slice / index / filter on the way)."""
-        fl = flow(vds, e)
-        return reads_attr(fl, "values", sp) and not any(isinstance(x, ast.Subscript) for x in fl) and not any(isinstance(x, ast.comprehension) and x.ifs for x in fl)
+        fl = fflow(fr, e)
+        return reads_obj_attr(fl, "values") and not any(isinstance(x, ast.Subscript) for _f, x in fl) and not any(isinstance(x, ast.comprehension) and x.ifs for _f, x in fl)
 
-    cnts = alternatives(vds, seq_ret["count"]) if seq_ret.get("count") is not None else []
-    ok = bool(cnts) and all(isinstance(c, ast.Call) and call_attr(c) == "len" and len(c.args) == 1 and all_values(c.args[0]) for c in cnts)
+    ok = True
+    for sig in seq_sigs:
+        cnts = falternatives(*sig["count"]) if sig.get("count") is not None else []
+        ok = ok and bool(cnts) and all(isinstance(c, ast.Call) and call_attr(c) == "len" and len(c.args) == 1 and not c.keywords and all_values(cf, c.args[0]) for cf, c in cnts)
     R.check(ok, r, SEM, "variable_domain_signature", "sequence signature: count = len(values)", "the number of values is not part of the signature", vds.lineno)
     # digests computed here or in a function of this module that is handed the values
-    n_dig = 0
     ok = True
-    for k, v in seq_ret.items():
-        if k == "kind":
-            continue
-        fl = flow(vds, v)
-        for c in calls_to(fl, *HASH_FUNCS):
-            n_dig += 1
-            ok = ok and bool(c.args) and all_values(c.args[0])
-        for c in fl:
-            hit = _local_callee(repo, SEM, vds, c) if isinstance(c, ast.Call) and call_attr(c) not in HASH_FUNCS else None
-            if hit is None:
+    for sig in seq_sigs:
+        n_dig = 0
+        for k, (vf, v) in sig.items():
+            if k == "kind":
                 continue
-            callee = NF(repo, SEM, hit[0])
-            cps_ = _params_of(callee)
-            for rv in [x.value for x in walk_no_nested(callee) if isinstance(x, ast.Return) and x.value is not None]:
-                for hc in calls_to(flow(callee, rv), *HASH_FUNCS):
+            for cf, c in fflow(vf, v):
+                if isinstance(c, ast.Call) and call_attr(c) in HASH_FUNCS:
                     n_dig += 1
-                    hfl = flow(callee, hc.args[0]) if hc.args else []
-                    fed = [i for i, pn in enumerate(cps_) if any(isinstance(x, ast.Name) and x.id == pn for x in hfl)]
-                    partial = any(isinstance(x, ast.Subscript) for x in hfl) or any(isinstance(x, ast.comprehension) and x.ifs for x in hfl)
-                    ok = ok and bool(fed) and not partial and all(i < len(c.args) and all_values(c.args[i]) for i in fed)
-    ok = ok and n_dig > 0
+                    ok = ok and bool(c.args) and all_values(cf, c.args[0])
+        ok = ok and n_dig > 0
     R.check(ok, r, SEM, "variable_domain_signature", "sequence signature: digest over all values", "the sequence digest covers only a part of the values (e.g. head/tail): sequences differing in the middle share a signature", vds.lineno)
-    R.check(fc_ret is not None and "key" in fc_ret and reads_attr(flow(vds, fc_ret["key"]), "key", sp), r, SEM, "variable_domain_signature", "from_context signature carries the key", "the context key of a from_context variable is not part of the signature", vds.lineno)
+    ok = bool(fc_sigs) and all("key" in sig and reads_obj_attr(fflow(*sig["key"]), "key") for sig in fc_sigs or [])
+    R.check(ok, r, SEM, "variable_domain_signature", "from_context signature carries the key", "the context key of a from_context variable is not part of the signature", vds.lineno)
 
 
 def run(repo: Repo, R: Report) -> None:
